@@ -398,7 +398,7 @@ package table
 //@ func (*RoutingPolicy).AddDefinedSet
 //@   requires r != nil && s != nil
 //@   claims post
-//@   ensures has(old(r.definedSetMap), s.Type()) && has(old(r.definedSetMap[s.Type()]), s.Name()) ==> r.definedSetMap[old(s.Type())][old(s.Name())] == old(r.definedSetMap[s.Type()][s.Name()])
+//@   ensures old(has(r.definedSetMap, s.Type()) && has(r.definedSetMap[s.Type()], s.Name())) ==> r.definedSetMap[old(s.Type())][old(s.Name())] == old(r.definedSetMap[s.Type()][s.Name()])
 
 // from C16: the verdict as the policy condition uses it. ROATable.Validate gives no verdict (nil) for withdrawals and
 // for families that have no ROA table (everything but IPv4/IPv6 unicast); the rpki condition, which is evaluated for
